@@ -107,6 +107,7 @@ struct GenCfg {
   int locale = LOC_C;
   bool probes = false;            // purity
   bool no_oob_crystal_Z = false;  // quarantine helper
+  int focus_strength = 0;         // 1: four fifths of the ops are focus ops and three quarters of their macro arguments the focus value (threads engine)
   int nfocus = 0;                 // >0: most query ops of the history come from these few entry points ...
   int focus_q[3] = {0, 0, 0};
   int focus_macro = 0;            // ... and half of their macro arguments (shell/line/trans/auger) take this value
